@@ -37,6 +37,11 @@ def conform_ring(c, name, sut, scripts, module, consts_fn, n=2, origins=(0,), bo
 
 
 def C02(c):
+    C02_rings(c)
+    C02_channels(c)
+
+
+def C02_rings(c):
     quick = c.tier == "quick"
     # --- design level: every interleaving of the atomic-operation actions, all counter origins (wrap included)
     origins = [0, 6, 7] if quick else ALL_ORIGINS8
@@ -330,4 +335,169 @@ def C04(c):
             conform_chan(c, "%s_n%d" % (kind, n), group, "Trace_AbsUni", uni_consts(n, 4, kind, checks))
 
 
-CHECKS = {"C04": C04, "C02": C02, "C13": C13, "C18": C18, "C15": C15, "C01": C01}
+def run_uni(c, kinds, build, checks, relax_kf=False, procs=4, expect_stalls=False):
+    """build(kind) -> list of scenarios; validated per (kind, N) against Trace_AbsUni with the given verdicts switched on"""
+    for kind in kinds:
+        for n, group in by_n(build(kind)):
+            conform_chan(c, "%s_n%d" % (kind, n), group, "Trace_AbsUni", uni_consts(n, procs, kind, checks), relax_kf=relax_kf, expect_stalls=expect_stalls)
+
+
+def C02_channels(c):
+    """C02 at the channel level: sends through every entry point against single polls (so that 'empty' answers occur)"""
+    quick = c.tier == "quick"
+    mr, rr = (150, 100) if quick else (3000, 2000)
+
+    def build(kind):
+        out = []
+        zc = kind in UNI_ZC
+        for n, s_ in ((2, 1), (2, 2)) + (() if quick else ((4, 2),)):
+            p0 = [S(11), SW(12), S(13)]
+            p1 = [SW(21, False), SA(22, 1)]
+            c0 = [POLL(0, hold=zc), POLL(0), RELALL, POLL(0)] if zc else [POLL(0), POLL(0), POLL(0)]
+            th = [p0, p1, c0] + ([[POLL(1), POLL(1)]] if s_ == 2 else [])
+            out += explore2("%s_n%ds%d_lin" % (kind, n, s_), kind, n, s_, th, c, mr, rr, pre_streams=s_)
+        return out
+    run_uni(c, UNI_KINDS, build, ["InvLinearizable", "NoPanic", "InvPendingCount"], relax_kf=True)
+
+
+def C07(c):
+    quick = c.tier == "quick"
+    mr, rr = (200, 120) if quick else (4000, 2500)
+    checks = ["InvCancelEndsStreams", "InvDeliveredAtMostOnce", "InvRunningCount", "NoPanic"]
+
+    def build(kind):
+        out = []
+        for n, s_ in ((2, 1), (2, 2), (4, 2)):
+            cons = [[DRIVE(i), DROPS(i), op("running")] for i in range(s_)]
+            th = [[S(11), SW(12)], [CANCEL_ALL, op("running")]] + cons
+            out += explore2("%s_n%ds%d_cancel" % (kind, n, s_), kind, n, s_, th, c, mr, rr, pre_streams=s_)
+            # cancel before the first poll / with events buffered; then the id is reusable
+            th2 = [[S(11), S(12), CANCEL_ALL], [DRIVE(0), DROPS(0), CREATE(), op("running"), POLL(s_)]] + ([[DRIVE(1)]] if s_ == 2 else [])
+            out += explore2("%s_n%ds%d_reuse" % (kind, n, s_), kind, n, s_, th2, c, mr, rr, seed_extra=7, pre_streams=s_)
+        return out
+    run_uni(c, UNI_KINDS, build, checks)
+
+
+def resv_histories(seed, count, length, n):
+    import random
+    rng = random.Random(seed)
+    out = []
+    for k in range(count):
+        ops = []
+        v = 100 + k * 40
+        for _ in range(length):
+            kind = rng.choice(["reserve", "reserve", "send", "poll", "send_reserved", "cancel", "poll"])
+            v += 1
+            if kind == "reserve":
+                ops += [RSV, FILL(v)]
+            elif kind == "send":
+                ops.append(SIC(v))
+            elif kind == "poll":
+                ops.append(POLL(0))
+            elif kind == "send_reserved":
+                ops.append(SENDR)
+            else:
+                ops.append(CANCR)
+        # resolve what is still reserved, consume everything, then probe the capacity: exactly N sends are accepted
+        ops += [CANCR] * 3 + [SENDR] * 3 + [POLL(0)] * (n + 1) + [S(900 + i) for i in range(n + 1)] + [op("pending")]
+        out.append(("h%d" % k, ops))
+    return out
+
+
+def C08(c):
+    quick = c.tier == "quick"
+    checks = ["InvLinearizable", "InvDeliveredAtMostOnce", "InvNoLossNoInvention", "NoPanic", "InvPendingCount"]
+    cnt, ln = (8, 8) if quick else (60, 12)
+    mr, rr = (150, 100) if quick else (3000, 2000)
+
+    def build(kind):
+        out = []
+        for n in (2, 4):
+            origins = [0] + (window_origins(n, True) if quick else window_origins(n, False))
+            for hname, ops in resv_histories(c.seed * 31 + n, cnt, ln, n):
+                for o in origins:
+                    sc = cscn("%s_n%d_%s_o%d" % (kind, n, hname, o), kind, n, 1, [ops], dfs(0, 1), payload="u64")
+                    sc["origin"] = o
+                    out.append(sc)
+            # a reserving producer against a concurrently polling consumer
+            prod = [RSV, FILL(11), RSV, FILL(12), CANCR, SENDR, RSV, FILL(13), SENDR, SIC(14)]
+            out += explore2("%s_n%d_conc" % (kind, n), kind, n, 1, [prod, [POLL(0), POLL(0), POLL(0), POLL(0)]], c, mr, rr, payload="u64")
+        return out
+    for profile in ("debug",):
+        run_uni(c, UNI_RESERVE, build, checks, procs=2)
+
+
+def C16(c):
+    quick = c.tier == "quick"
+    mr, rr = (150, 100) if quick else (3000, 2000)
+    checks = ["InvLinearizable", "InvRejectedSetterUninvoked", "InvDeliveredAtMostOnce", "InvNoLossNoInvention", "InvPendingCount", "InvNoStall", "NoPanic"]
+
+    def build(kind):
+        out = []
+        zc = kind in UNI_ZC
+        resv = kind in UNI_RESERVE
+        for n in (2, 4):
+            # histories: fill, rejected sends through every entry point, make room, retry, drain -- three cycles
+            ops = []
+            v = 10
+            for cyc in range(3):
+                for _ in range(n):
+                    v += 1
+                    ops.append(S(v))
+                ops += [op("pending"), S(v + 100), SW(v + 101), SA(v + 102, 1)] + ([RSV] if resv else []) + [op("pending")]
+                ops += [POLL(0, hold=zc)] + ([RELALL] if zc else []) + [SW(v + 103), S(v + 104), op("pending")]
+                ops += [POLL(0)] * (n + 1) + [op("pending")]
+                v += 200
+            sc = cscn("%s_n%d_cycles" % (kind, n), kind, n, 1, [ops], dfs(0, 1))
+            out.append(sc)
+            # several producers colliding at the boundary against one slow consumer
+            th = [[S(11), S(12), S(13)], [SW(21), SW(22, False)], [SA(31, 1), S(32)], [POLL(0), POLL(0), op("pending")]]
+            if kind == "uni_move_crossbeam":
+                # its setter-based sends wait by documented design once their initial fullness test has passed (excluded by the statement)
+                th = [[S(11), S(12), S(13)], [S(21), S(22)], [S(31), S(32)], [POLL(0), POLL(0), op("pending")]]
+            out += explore2("%s_n%d_collide" % (kind, n), kind, n, 1, th, c, mr, rr)
+        return out
+    run_uni(c, UNI_KINDS, build, checks, relax_kf=True)
+
+
+def C20(c):
+    quick = c.tier == "quick"
+    mr, rr = (120, 80) if quick else (2500, 1500)
+    checks = ["InvNoStall", "InvNoLostWakeup", "InvDeliveredAtMostOnce", "NoPanic"]
+
+    def build(kind):
+        out = []
+        for n, s_ in ((2, 1), (4, 1), (4, 2)):
+            # one producer suspended for ever inside its async setter; everybody else must still complete
+            th = [[SA(11, -1)], [S(21), SW(22), op("pending")], [DRIVE(0, max_=2)]]
+            out += explore2("%s_n%ds%d_never" % (kind, n, s_), kind, n, s_, th, c, mr, rr, pre_streams=s_)
+            th2 = [[SA(11, -1)], [SA(21, -1)], [S(31), op("pending"), POLL(0), POLL(0)]]
+            out += explore2("%s_n%ds%d_never2" % (kind, n, s_), kind, n, s_, th2, c, mr, rr, seed_extra=3, pre_streams=s_)
+            # suspended for a while, then resumed: the suspended event is delivered as well
+            th3 = [[SA(11, 3)], [S(21), SW(22)], [DRIVE(0, max_=3)]]
+            out += explore2("%s_n%ds%d_later" % (kind, n, s_), kind, n, s_, th3, c, mr, rr, seed_extra=5, pre_streams=s_)
+        return out
+    run_uni(c, UNI_KINDS, build, checks, expect_stalls=True)
+
+
+def C05_uni(c):
+    quick = c.tier == "quick"
+    mr, rr = (150, 100) if quick else (3000, 2000)
+    checks = ["InvDestroyedAtMostOnce", "InvDestroyedExactlyOnce", "InvNoUseAfterFree", "InvLinearizable", "NoPanic"]
+
+    def build(kind):
+        out = []
+        zc = kind in UNI_ZC
+        for n in (2, 4):
+            # handles released on another thread; teardown with events still buffered (no drain)
+            th = [[S(11), SW(12), S(13), S(14)], [POLL(0, hold=True), POLL(0, hold=True)], [RELALL, S(31), RELALL]]
+            for drain in (True, False):
+                out += explore2("%s_n%d_%s" % (kind, n, "drain" if drain else "leftovers"), kind, n, 1, th, c, mr, rr, drain=drain)
+            # fill, consume and release everything, then the channel accepts N events again
+            ops = [S(10 + i) for i in range(n)] + [POLL(0, hold=True)] * n + [RELALL] + [S(50 + i) for i in range(n + 1)]
+            out.append(cscn("%s_n%d_refill" % (kind, n), kind, n, 1, [ops], dfs(0, 1)))
+        return out
+    run_uni(c, ["uni_move_atomic", "uni_move_fullsync", "uni_zc_atomic", "uni_zc_fullsync"], build, checks, relax_kf=True)
+
+
+CHECKS = {"C04": C04, "C07": C07, "C08": C08, "C16": C16, "C20": C20, "C02": C02, "C13": C13, "C18": C18, "C15": C15, "C01": C01}
